@@ -1,0 +1,104 @@
+//go:build verif
+
+package bbolt
+
+import (
+	"sync/atomic"
+
+	fl "go.etcd.io/bbolt/internal/freelist"
+)
+
+// This file is only compiled with the `verif` build tag. It exposes every
+// I/O call bbolt issues against a data file as an observable, failable event
+// for the external verification harness. Without the tag the call sites
+// compile to empty inlinable stubs (see verif_off.go).
+
+type verifOp int
+
+const (
+	verifOpWriteAt verifOp = iota + 1
+	verifOpFdatasync
+	verifOpTruncate
+	verifOpGrowSync
+	verifOpRemapEnter
+	verifOpMmap
+)
+
+// VerifOp identifies the kind of an I/O event.
+type VerifOp = verifOp
+
+const (
+	VerifWriteAt    = verifOpWriteAt    // Off, Data: about to pwrite Data at Off
+	VerifFdatasync  = verifOpFdatasync  // about to fdatasync the data file
+	VerifTruncate   = verifOpTruncate   // Size: about to ftruncate to Size (grow)
+	VerifGrowSync   = verifOpGrowSync   // about to fsync after growing
+	VerifRemapEnter = verifOpRemapEnter // Size: mmap(minsz) entered, no lock taken yet
+	VerifMmap       = verifOpMmap       // Size: old map released, about to map Size bytes
+)
+
+// VerifEvent describes one imminent I/O call.
+type VerifEvent struct {
+	Op   VerifOp
+	DB   *DB
+	Path string
+	Off  int64
+	Size int
+	Data []byte
+}
+
+var verifHook atomic.Pointer[func(*VerifEvent) error]
+
+// SetVerifHook installs fn as the process-wide event callback (nil removes it).
+// If the callback returns an error the I/O call is not performed and the call
+// site returns that error.
+func SetVerifHook(fn func(*VerifEvent) error) {
+	if fn == nil {
+		verifHook.Store(nil)
+		return
+	}
+	verifHook.Store(&fn)
+}
+
+func verifEvent(db *DB, op verifOp, off int64, size int, data []byte) error {
+	h := verifHook.Load()
+	if h == nil {
+		return nil
+	}
+	return (*h)(&VerifEvent{Op: op, DB: db, Path: db.path, Off: off, Size: size, Data: data})
+}
+
+func verifWrapOps(db *DB) {
+	inner := db.ops.writeAt
+	db.ops.writeAt = func(b []byte, off int64) (int, error) {
+		if err := verifEvent(db, verifOpWriteAt, off, len(b), b); err != nil {
+			return 0, err
+		}
+		return inner(b, off)
+	}
+}
+
+// VerifFreelist returns the ids that are free (allocatable now) and the ids
+// that are pending per freeing transaction, as the in-memory free list holds
+// them. Only meaningful while no write transaction is running concurrently.
+func (db *DB) VerifFreelist() (free []uint64, pending map[uint64][]uint64) {
+	if db.freelist == nil {
+		return nil, nil
+	}
+	f, p := fl.VerifState(db.freelist)
+	for _, id := range f {
+		free = append(free, uint64(id))
+	}
+	pending = make(map[uint64][]uint64)
+	for tid, ids := range p {
+		for _, id := range ids {
+			pending[uint64(tid)] = append(pending[uint64(tid)], uint64(id))
+		}
+	}
+	return free, pending
+}
+
+// VerifMapSize returns the size of the current memory map.
+func (db *DB) VerifMapSize() int { return db.datasz }
+
+// VerifSetAllocSize is a setter usable in expressions.
+func (db *DB) VerifSetAllocSize(n int) { db.AllocSize = n }
